@@ -106,7 +106,6 @@ def gen():
             raise TranslateError("union member %s: expected type %s, found %s" % (f, t, members.get(f)))
     if members.get("ptr") != "char*":
         raise TranslateError("union member ptr: expected char*")
-    sfields = re.findall(r"^\s*(\w[\w ]*?)\s+(\w+)\s*;", body_of(hdr, r"typedef\s+struct\s*\{\s*int\s+magicHeader", "occaType struct"), re.M)
 
     # ---- newOccaType<T> specialisations
     spec = {}
@@ -244,7 +243,14 @@ def gen():
 
     # ---- json handles: newOccaType(const json&, needsFree) returns occaNull for a null json
     jb = body_of(cpp, r"occaType\s+newOccaType\(const\s+occa::json\s*&json,\s*const\s+bool\s+needsFree\)\s*\{", "newOccaType(json)")
-    need(re.search(r"if\s*\(json\.isNull\(\)\)\s*\{\s*return\s+occaNull\s*;", jb), "newOccaType(json): null test")
+    nm = need(re.search(r"if\s*\(json\.isNull\(\)\)\s*\{(.*?)return\s+occaNull\s*;", jb, re.S), "newOccaType(json): null test")
+    inner = re.sub(r"//[^\n]*", "", nm.group(1)).strip()
+    if inner == "":
+        null_frees = False          # an owned (heap) json that is null is dropped without being freed: leak
+    elif re.fullmatch(r"if\s*\(needsFree\)\s*\{\s*delete\s+&json\s*;\s*\}", inner):
+        null_frees = True
+    else:
+        raise TranslateError("newOccaType(json): unrecognised statements before `return occaNull`: %s" % inner[:80])
     need(re.search(r"oType\.needsFree\s*=\s*needsFree\s*;", jb), "newOccaType(json): needsFree")
 
     # ---- OCCA_* constants and globals
@@ -320,8 +326,6 @@ def gen():
         L.append("def %s : Nat := %d" % (lean_tag(k), v))
     L.append("def tagCount : Nat := %d" % len(tags))
     L.append("def tagNames : List (Nat × String) := [%s]" % ", ".join('(%d, "%s")' % (v, k.rstrip("_")) for v, k in tag_by_val))
-    L.append("/-- members of `occaType` in declaration order -/")
-    L.append("def structFields : List String := [%s]" % ", ".join('"%s"' % b for _, b in sfields))
     L.append("")
     L.append("/-- `newOccaType<T>`: (tag, bytes, C type of the union member written, needsFree) -/")
     L.append("def ctorSpec : CTy → Nat × Nat × CTy × Bool")
@@ -369,6 +373,9 @@ def gen():
     for n in sorted(bysize):
         L.append("  | %d => some (if isUnsigned then .%s else .%s)" % (n, bysize[n][0], bysize[n][1]))
     L.append("  | _ => none")
+    L.append("")
+    L.append("/-- `newOccaType(const json&, needsFree)` for a null json: the owned heap object is deleted before occaNull is returned -/")
+    L.append("def nullJsonFreesOwned : Bool := %s" % ("true" if null_frees else "false"))
     L.append("")
     L.append("/-- call sites in src/c/*.cpp of the untyped `newOccaType(const primitive&)` (it has no bool case) -/")
     L.append("def untypedPrimCallSites : Nat := %d" % sites)
